@@ -264,4 +264,67 @@ theorem cost_JSR_MEMIND (op : BitVec 16) (st st' : Cpu) (c : BitVec 8) (h : jsrI
   injection h with hc hs; subst hs
   exact ⟨c1, c2, c3, h1, h2, h3, hc.symm⟩
 
+/-- TRAPA #1-#3: two fetch cycles, two vector-read cycles (J) AT THE TRAP VECTOR, two stack cycles (K) AT THE FRAME'S
+    ADDRESS, four internal states -/
+theorem cost_TRAPA (op : BitVec 16) (st st' : Cpu) (c : BitVec 8) (h : trapa op st = .ok c st') (hn : (nib op 3 == 0) = false) :
+    (∃ c1 c2 c3, costI 2 st' = .ok c1 st' ∧ calcStateWithAddr .J 2 ((0x20#8 + 4 * nib op 3).setWidth 32) st' = .ok c2 st' ∧
+      calcStateWithAddr .K 2 (frameAddr st.regs) st' = .ok c3 st' ∧ c = c1 + c2 + c3 + 4) ∧
+    Spec.Form.mix .TRAPA = { i := 2, j := 2, k := 2, n := 4 } := by
+  refine ⟨?_, rfl⟩
+  simp only [trapa, bind_ok, readRnL_ok _ _ seven_ok, hn, Bool.false_eq_true, if_false, get_ok] at h
+  split at h
+  case h_2 => simp at h
+  case h_3 => simp at h
+  rename_i u s1 hpush
+  split at h
+  case h_2 => simp at h
+  case h_3 => simp at h
+  rename_i dest s2 hvec
+  simp only [modify_ok, writeCcr_one, pure_ok] at h
+  split at h
+  case h_2 => simp at h
+  case h_3 => simp at h
+  rename_i c1 sa h1; have e1 := costI_state h1; subst e1
+  split at h
+  case h_2 => simp at h
+  case h_3 => simp at h
+  rename_i c2 sb2 h2; have e2 := calcStateWithAddr_state h2; subst e2
+  split at h
+  case h_2 => simp at h
+  case h_3 => simp at h
+  rename_i c3 sb3 h3; have e3 := calcStateWithAddr_state h3; subst e3
+  split at h
+  case h_2 => simp at h
+  case h_3 => simp at h
+  rename_i c4 sb4 h4; have e4 := calcState_state h4; subst e4
+  have hn4 := C20M.calcState_N _ _ _ _ h4; subst hn4
+  injection h with hc hs; subst hs
+  exact ⟨c1, c2, c3, h1, h2, h3, hc.symm⟩
+
+/-- the encoding of STC.W CCR,@-ERd (executed as a post-increment store, known finding C07-STCW-PREDEC): its charge is
+    nevertheless the manual's mix — two fetch cycles, one word cycle at the address it stores to, two internal states -/
+theorem cost_STC_W_PREDEC (op2 : BitVec 16) (st st' : Cpu) (c : BitVec 8)
+    (hp : Spec.Form.pat .STC_W_PREDEC 0x0140 op2 0 0 0 = true) (h : stcWIncErn op2 st = .ok c st')
+    (f0 : Spec.isSfr (getEr st.regs (nib op2 3 &&& 7) &&& ADDRESS_MASK).toNat = false)
+    (f1 : Spec.isSfr ((getEr st.regs (nib op2 3 &&& 7) &&& ADDRESS_MASK) + 1).toNat = false) :
+    ChargedAt 2 .M 1 (getEr st.regs (nib op2 3 &&& 7) &&& ADDRESS_MASK) 2 st' c ∧
+    Spec.Form.mix .STC_W_PREDEC = { i := 2, m := 1, n := 2 } := by
+  refine ⟨?_, rfl⟩
+  rw [Spec.pat_STC_W_PREDEC] at hp; simp only [Bool.and_eq_true, beq_iff_eq] at hp
+  have h3 : (nib op2 3 &&& 7).ule 7#8 = true := by (simp only [nib]; bv_decide)
+  simp only [stcWIncErn, writeIncErn, writeMem, bind_ok, pure_ok, readRnL_ok _ _ h3, M.get, Sz.bytes] at h
+  split at h
+  case h_2 => simp at h
+  case h_3 => simp at h
+  rename_i u s1 hw
+  split at hw
+  case h_2 => simp at hw
+  case h_3 => simp at hw
+  rename_i u0 s0 hw0
+  have ew := C01P.writeAbs24W_poke _ _ _ _ hw0 f0 f1
+  subst ew
+  simp only [writeRnL_ok _ _ _ h3, Res.ok.injEq, true_and] at hw
+  subst hw
+  cost3_keep
+
 end H8.Props.C20Z
